@@ -92,7 +92,9 @@ def case(chk, i):
     suffix = rng.choice([None, None, "_w", "__vf_extern"])
     wrap = os.path.join(d, rng.choice(["wrap", "my wrappers", "w-x_1"]))
     flags = ["--experimental", "--wrap-static-fns", "--wrap-static-fns-path", wrap] + (["--wrap-static-fns-suffix", suffix] if suffix else [])
-    flags += rng.choice([[], ["--merge-extern-blocks"], ["--default-enum-style", "rust"], ["--rust-target", "1.70"]])
+    flags += rng.choice([[], ["--merge-extern-blocks"], ["--default-enum-style", "rust"], ["--rust-target", "1.70"],
+                         # an ABI override on (some of) the static functions: they are wrapped like the others (C-unwind is call-compatible with C)
+                         ["--override-abi", "fn[0-9]*[02468]=C-unwind"], ["--override-abi", ".*=C-unwind", "--merge-extern-blocks"]])
     name = "static-%d" % i
     b = os.path.join(d, "b.rs")
     rc, so, se, _ = sh([build.BINDGEN, hdr] + flags + ["-o", b], timeout=120, cpu=100)
